@@ -510,6 +510,10 @@ def handleToks (s : Sys) (toks : List String) : Sys × String :=
     (match parseRec k f m p with
      | some r => ({ s with store := s.store.put r }, "ok")
      | none => (s, "bad-op"))
+  | ["apivia", _] =>
+    -- which constructor of a DatabaseAPI serves the `api` operations that follow (Handle / real websocket):
+    -- every one of them opens its interface with the options of `@api` (theorem `api_constructors_unprivileged`)
+    (s, "ok")
   | ["api", "get", k] =>
     (match s.iface "@api" with
      | some i =>
